@@ -78,7 +78,11 @@ FIRST = {
  'C13-m7': [], 'C13-m8': ['C13'],
  'C17-m7': ['C17'], 'C17-m8': ['C17'],
  'C19-m7': ['C19'], 'C19-m8': ['C19'],
+ # round 5 (m9): the ten properties not in round 4, one change each; evaluated against the owning check plus C05 and C09
+ 'C01-m9': [], 'C04-m9': ['C04'], 'C05-m9': ['C05', 'C09'], 'C06-m9': ['C06'], 'C09-m9': [],
+ 'C14-m9': ['C14'], 'C15-m9': ['C15'], 'C16-m9': ['C16'], 'C18-m9': ['C18'], 'C20-m9': ['C20'],
 }
+ROUND5_CHECKS = 'the owning check, C05 and C09'
 # after strengthening the owning check (re-run of the owning check only)
 AFTER = {
  'C02-m2': (['C02', 'C03'], 'C02: runs of 1..4 signs over an operand pool of every type, every grouping of the run evaluating alike; C03: runs of 1..4 minus signs, literal and bound'),
@@ -115,6 +119,8 @@ AFTER = {
  'C19-m6': (['C19', 'C11'], 'C19: programs with a map constant are read back 6 more times and each copy must behave like the original; behaviour that depends on the layout of a rebuilt map is now a violation instead of a skip; macros over map constants in the grid. C11: the same macros and string(map) in the history pool and on 16 threads'),
  'C12-m8': (['C12', 'C01'], 'C12: self and mutual cycles through 1..8 nested macro bodies, run in children of the unoptimised and the release build on both stack sizes (vcheck builds profile opt0 for C12 too); C01: four nested-macro-body cycle shapes in its cycle list'),
  'C13-m7': (['C13'], 'C13: a sign, blank, underscore, dot or non-hex letter in every digit position of \\x, \\u and \\U escapes'),
+ 'C01-m9': (['C01', 'C12'], 'C01: eleven cycle shapes through macro bodies over a map receiver (literal and bound), map(x,p,e) predicates; C12: self and mutual cycles through every macro over a map receiver, unoptimised and release children on both stacks'),
+ 'C09-m9': (['C09'], 'C09: maps read with dot notation under a key spelled like a built-in function, macro or type (23 names x 5 values x 8 forms): constant map, bound map and map built at run time must agree'),
  'C20-m4': (['C20'], 'C20: the SQL re-parser lets a type name absorb a following [..] / (..) as SQL does - which also exposed the same defect on the unchanged tree for the empty map literal (repaired, 0ecc3cf)'),
 }
 for d in sorted(os.listdir(ROOT)):
@@ -140,7 +146,8 @@ for d in sorted(os.listdir(ROOT)):
             'suite_passes_with_change': True, 'demo_fails_with_change': True, 'demo_passes_without_change': True,
         },
         'evaluation': {
-            'how': 'tools/seed_eval.sh: git -C /repo apply patch.diff; ./vcheck <C01..C20> quick (VERIF_SEED default); git -C /repo checkout -- .',
+            'how': ('tools/seed_eval.sh: git -C /repo apply patch.diff; ./vcheck <ID> quick for ' + ROUND5_CHECKS + ' only (VERIF_SEED default); git -C /repo checkout -- .') if d.endswith('-m9') else
+                   'tools/seed_eval.sh: git -C /repo apply patch.diff; ./vcheck <C01..C20> quick (VERIF_SEED default); git -C /repo checkout -- .',
             'caught_by_first_pass': FIRST.get(d, []),
             'caught_by_own_property_first_pass': prop in FIRST.get(d, []),
         },
